@@ -372,10 +372,12 @@ def main():
     add('tables', 'tables', family_tables(inv, tb), 8, ['-fno-inline'])
     add('tables', 'parse', family_parse(inv, tb, 3 if thorough else 2), 8, ['-fno-inline'])
     add('tables', 'number', family_number(), 1, ['-fno-inline'], includes=['PhQ/Base.hpp'])
-    for T in (C.TYPES if thorough else ['f64']):
+    for T in C.TYPES:
         pw = family_print(inv, tb, T)
+        # PhQ::Print itself for all three types (its buffer / precision arithmetic depends on the type); composite forms per tier
         add('print-cascade', 'printc_' + T, [(w, '%s<%s>' % (d, CT[T])) for w, d in pw if w.name.startswith('w_print_')], 1, ['-fno-inline'], includes=['PhQ/Base.hpp'])
-        add('print', 'print_' + T, [(w, '%s<%s>' % (d, CT[T])) for w, d in pw if not w.name.startswith('w_print_')], 6, ['-fno-inline'])
+        if thorough or T == 'f64':
+            add('print', 'print_' + T, [(w, '%s<%s>' % (d, CT[T])) for w, d in pw if not w.name.startswith('w_print_')], 6, ['-fno-inline'])
     results = engine.run_units(specs, worker, work)
     engine.collect(rep, results)
     rep.notes += notes
